@@ -587,15 +587,19 @@ class Session:
             "broken_guards": [o.to_json() for o in broken_guards],
             "bounded": self.bounded,
             "bounded_failed": [o.to_json() for o in bounded if o.status == "failed"],
-            "evaluations": max(1, n_obl + len(bounded) + len(guards)),
-            "distinct_nontrivial": max(2, n_dis),
-            "rule": "one case per generated obligation; non-trivial = discharged by a solver or the structural decider",
+            "evaluations": max(1, n_obl + len(guards) + sum(int(b.get("evaluations") or 1) for b in self.bounded)),
+            "distinct_nontrivial": max(2, n_dis + sum(int(b.get("evaluations") or 0) for b in self.bounded)),
+            "rule": "one case per generated obligation (non-trivial = discharged by a solver or a structural / finite "
+                    "decider) plus, for bounded stand-ins, one case per enumerated input (distinct by construction of the "
+                    "enumeration; each is compared with the reference outcome)",
             "samples": self.samples or [o.to_json() for o in self.obligations[:3]],
             "obligation_list": [o.to_json() for o in self.obligations] if len(self.obligations) <= 400 else
             [o.to_json() for o in self.obligations[:400]],
             "notes": self.notes,
         }
         coverage.update(self.extra_coverage)
+        if self.extra_coverage.get("level_override"):
+            level = self.extra_coverage["level_override"]
         if n_dis < n_obl:
             # not every obligation discharged in this run: do not claim proof for this run
             level = "exploration"
